@@ -70,8 +70,12 @@ Section ConcreteProofs.
   Variable R : Type.
   Variable O : ops R.
 
+  Ltac cases_q s :=
+    try (destruct (c_tri s); [|destruct (triangleset (d_vcounts R s) (d_rows R s))]);
+    try (destruct (c_img s)).
+
   (* writes stay inside the declared hidden fields: the observable part never changes, and a
-     cache field that is not declared keeps its value *)
+     hidden field that is not declared keeps its value *)
   Lemma c_frame : forall q (s : cdoc R), cobs (fst (cexec O q s)) = cobs s.
   Proof.
     intros q s. destruct q; simpl; try reflexivity.
@@ -81,25 +85,28 @@ Section ConcreteProofs.
 
   Lemma c_writes_declared : forall q (s : cdoc R),
     (~ In FTriCache (cdeclared q) -> c_tri (fst (cexec O q s)) = c_tri s) /\
-    (~ In FImgCache (cdeclared q) -> c_img (fst (cexec O q s)) = c_img s).
+    (~ In FImgCache (cdeclared q) -> c_img (fst (cexec O q s)) = c_img s) /\
+    (~ In FFresh (cdeclared q) -> f_store (fst (cexec O q s)) = f_store s /\ f_next (fst (cexec O q s)) = f_next s).
   Proof.
-    intros q s. destruct q; simpl; split; intro H; try reflexivity.
-    - exfalso. apply H. left. reflexivity.
+    intros q s. destruct q; simpl; (split; [|split]); intro H; try reflexivity; try (split; reflexivity);
+      try (exfalso; apply H; left; reflexivity).
     - destruct (c_tri s); [reflexivity|]. destruct (triangleset (d_vcounts R s) (d_rows R s)); reflexivity.
+    - destruct (c_tri s); [split; reflexivity|]. destruct (triangleset (d_vcounts R s) (d_rows R s)); split; reflexivity.
     - destruct (c_img s); reflexivity.
-    - exfalso. apply H. left. reflexivity.
+    - destruct (c_img s); split; reflexivity.
   Qed.
 
   Lemma cobs_fields : forall s s' : cdoc R, cobs s = cobs s' ->
     d_vcounts R s = d_vcounts R s' /\ d_rows R s = d_rows R s' /\ d_sources R s = d_sources R s' /\
-    d_lib R s = d_lib R s' /\ d_scene R s = d_scene R s' /\ d_file R s = d_file R s' /\ d_xml R s = d_xml R s'.
+    d_lib R s = d_lib R s' /\ d_scene R s = d_scene R s' /\ d_file R s = d_file R s' /\ d_xml R s = d_xml R s' /\
+    d_prim s = d_prim s'.
   Proof. intros s s' H. unfold cobs in H. inversion H. repeat split; assumption. Qed.
 
   Lemma c_result : forall q (s s' : cdoc R), ccoherent s -> ccoherent s' -> cobs s = cobs s' ->
     snd (cexec O q s) = snd (cexec O q s').
   Proof.
     intros q s s' [Ht Hi] [Ht' Hi'] Ho.
-    destruct (cobs_fields s s' Ho) as [Ev [Er [Es [El [Esc [Ef Ex]]]]]].
+    destruct (cobs_fields s s' Ho) as [Ev [Er [Es [El [Esc [Ef [Ex Ep]]]]]]].
     destruct q; simpl.
     - destruct (c_tri s) as [t|] eqn:E; destruct (c_tri s') as [t'|] eqn:E'.
       + pose proof (Ht t eq_refl) as A. pose proof (Ht' t' eq_refl) as B.
@@ -115,6 +122,13 @@ Section ConcreteProofs.
     - rewrite Es. reflexivity.
     - rewrite El. reflexivity.
     - rewrite Esc. reflexivity.
+    - rewrite Ep. reflexivity.
+    - rewrite Ep. reflexivity.
+    - rewrite Ep. reflexivity.
+    - rewrite Ep. reflexivity.
+    - rewrite Ev, Er. reflexivity.
+    - rewrite Esc. reflexivity.
+    - rewrite El, Ev, Ep. reflexivity.
   Qed.
 
   Lemma c_exec_coherent : forall q (s : cdoc R), ccoherent s -> ccoherent (fst (cexec O q s)).
@@ -134,19 +148,70 @@ Section ConcreteProofs.
   Lemma c_save_obs : forall s s' : cdoc R, cobs s = cobs s' ->
     cobs (fst (csave s)) = cobs (fst (csave s')) /\ snd (csave s) = snd (csave s').
   Proof.
-    intros s s' Ho. destruct (cobs_fields s s' Ho) as [Ev [Er [Es [El [Esc [Ef Ex]]]]]].
-    unfold csave, cobs, xml_of. simpl. rewrite Ev, Er, Es, El, Esc, Ef. split; reflexivity.
+    intros s s' Ho. destruct (cobs_fields s s' Ho) as [Ev [Er [Es [El [Esc [Ef [Ex Ep]]]]]]].
+    unfold csave, cobs, xml_of. simpl. rewrite Ev, Er, Es, El, Esc, Ef, Ep. split; reflexivity.
   Qed.
 
   Lemma c_save_coherent : forall s : cdoc R, ccoherent s -> ccoherent (fst (csave s)).
   Proof. intros s [Ht Hi]. split; simpl; assumption. Qed.
 
   Lemma c_fresh_coherent : forall s : cdoc R, cfresh s -> ccoherent s.
-  Proof. intros s [A B]. split; intros x H; [rewrite A in H | rewrite B in H]; discriminate. Qed.
+  Proof. intros s [A [B _]]. split; intros x H; [rewrite A in H | rewrite B in H]; discriminate. Qed.
+
+  Lemma c_fresh_wf : forall s : cdoc R, cfresh s -> cwf s.
+  Proof. intros s [_ [_ C]] k v H. rewrite C in H. destruct H. Qed.
 
   (* the library list itself: look-ups are functions of (items, index) and leave both alone *)
   Lemma c_lookup_pure : forall l (s : cdoc R),
     d_lib R (fst (cexec O (QLookup l) s)) = d_lib R s /\
     snd (cexec O (QLookup l) s) = RLookup R (il_lookup (d_lib R s) l).
   Proof. intros. split; reflexivity. Qed.
+
+  (* ---- allocation: locations handed out by binding are new, and stay below the allocator *)
+  Lemma c_exec_wf : forall q (s : cdoc R), cwf s -> cwf (fst (cexec O q s)).
+  Proof.
+    intros q s Hw. destruct q; simpl; try exact Hw.
+    - destruct (c_tri s); [exact Hw|]. destruct (triangleset (d_vcounts R s) (d_rows R s)); exact Hw.
+    - destruct (c_img s); exact Hw.
+    - intros k v H. simpl in H. destruct H as [H|[H|H]].
+      + inversion H. subst. apply N.lt_add_pos_r. reflexivity.
+      + inversion H. subst. apply N.add_lt_mono_l. reflexivity.
+      + apply N.lt_trans with (f_next s); [apply (Hw k v H) | apply N.lt_add_pos_r; reflexivity].
+    - intros k v H. simpl in H. destruct H as [H|[H|H]].
+      + inversion H. subst. apply N.lt_add_pos_r. reflexivity.
+      + inversion H. subst. apply N.add_lt_mono_l. reflexivity.
+      + apply N.lt_trans with (f_next s); [apply (Hw k v H) | apply N.lt_add_pos_r; reflexivity].
+  Qed.
+
+  Lemma c_save_wf : forall s : cdoc R, cwf s -> cwf (fst (csave s)).
+  Proof. intros s Hw. exact Hw. Qed.
+
+  Lemma bind_locs_new : forall (s : cdoc R) l, cwf s -> In l (bind_locs s) ->
+    forall v, ~ In (l, v) (f_store s).
+  Proof.
+    intros s l Hw Hl v Hin. pose proof (Hw l v Hin) as Hlt.
+    destruct Hl as [H|[H|[]]]; subst l.
+    - apply (N.lt_irrefl _ Hlt).
+    - apply (N.lt_irrefl (f_next s)). apply N.le_lt_trans with (f_next s + 1)%N; [apply N.le_add_r | exact Hlt].
+  Qed.
+
+  Lemma bind_allocates : forall m mm (s : cdoc R),
+    let bp := PrimIter.bind (d_prim s) m mm in
+    In (f_next s, rows_of (PrimIter.ip_vertex bp)) (f_store (fst (cexec O (QBind m mm) s))) /\
+    In ((f_next s + 1)%N, rows_of (PrimIter.ip_normal bp)) (f_store (fst (cexec O (QBind m mm) s))).
+  Proof. intros. simpl. split; [left; reflexivity | right; left; reflexivity]. Qed.
+
+  (* writing into an allocated array: nothing observable, no cache, no query result changes *)
+  Lemma c_write_obs : forall l v (s : cdoc R), cobs (cwrite l v s) = cobs s.
+  Proof. reflexivity. Qed.
+
+  Lemma c_write_result : forall q l v (s : cdoc R), snd (cexec O q (cwrite l v s)) = snd (cexec O q s).
+  Proof.
+    intros q l v s. destruct q; simpl; try reflexivity.
+    - destruct (c_tri s); [reflexivity|]. destruct (triangleset (d_vcounts R s) (d_rows R s)); reflexivity.
+    - destruct (c_img s); reflexivity.
+  Qed.
+
+  Lemma c_write_coherent : forall l v (s : cdoc R), ccoherent s -> ccoherent (cwrite l v s).
+  Proof. intros l v s Hc. exact Hc. Qed.
 End ConcreteProofs.
